@@ -144,25 +144,25 @@ corpus = {
  "C06": "every corpus document built twice in one process: same bytes or same error, source bytes unwritten",
  "C07": "every error of the rejected corpus documents re-derived from its (file, index) with the dependency's line arithmetic: line, column and quote",
  "C08": "blank lines, '#' comments and '###' block comments inserted between the top-level blocks of the accepted corpus documents: same catalog bytes",
- "C09": "1-3 consecutive top-level blocks of an accepted corpus document moved into an INCLUDEd file (about 1100 splits): same catalog bytes",
+ "C09": "1-3 consecutive top-level blocks of an accepted corpus document moved into an INCLUDEd file (about 4600 splits) and a document cut into a chain of 12 nested files: same catalog bytes",
  "C10": "every PASTE replaced textually by the re-indented body of its MACRO, MACRO blocks deleted: same catalog bytes; undefined and pasted cyclic macros are errors",
- "C19": "every (accepted corpus document, directive kind) pair, about 20 000: banning a kind that occurs gives the not-allowed error on an occurrence, banning one that does not occur gives the same catalog bytes",
+ "C19": "every (accepted corpus document, directive kind) pair, about 38 000 incl. CR-only layouts, a later zero byte and the last block in an INCLUDEd file: banning a kind that occurs gives the not-allowed error on an occurrence, banning one that does not occur gives the same catalog bytes",
 }
 # tree oracles (govc/replay_tree_test.go.tmpl) and the scanner corpus monitor: also bounded, also never counted as proved
 tree = {
  "C08": "the children of every directive with an implicit context put into ( ) (about 550 rewrites), and blank lines / '#' comments / '###' block comments in front of every directive line, blanks appended to directive lines, two more columns of indentation (about 11 000 rewrites), directive boundaries taken from the scanned tree: same catalog bytes",
- "C09": "every directive subtree at any depth moved into an INCLUDEd file, two sibling subtrees moved into two files, the children of a directive moved - in a ( ) that begins the included file - into an INCLUDEd file (about 3100 splits, boundaries from the scanned tree): same catalog bytes",
+ "C09": "every directive subtree at any depth moved into an INCLUDEd file, two sibling subtrees moved into two files, the children of a directive moved - in a ( ) that begins the included file - into an INCLUDEd file (about 19 000 splits incl. pieces without a final line break, boundaries from the scanned tree): same catalog bytes; rejected documents split at top-level directives are rejected with the same message at the corresponding line (about 240 splits)",
  "C11": "the children of every directive with an implicit context put into ( ), and the explicit-context-across-an-INCLUDE splits of C09: same catalog bytes",
  "C12": "the monitor of the first sentence of C12 (plus: no keyword/parameter/body lexeme begins or ends with a foreign blank) on every document of /repo/testdata, every prefix up to 800 bytes, and in thorough every single-byte edit of the documents up to 400 bytes",
  "C13": "the C13 part of the same monitor (only the language's keywords are accepted, each followed by a separator) over the same corpus",
 }
-tree["C14"] = "30 INCLUDE arrangements on disk (parameters with '..', '.', an absolute path, a backslash or nothing are refused at the INCLUDE although the file they name exists; missing file; directory; cycles; one file several times; names relative to the including file; in-memory roots named \"\", api.jst, ./api.jst). Cycles through the ROOT file are rejected with the JSIGHT-in-included-file error instead of the recursion error: open known finding D29, an obligation of its own"
+tree["C14"] = "56 INCLUDE arrangements on disk (INCLUDE in 11 positions where a directive may start, a chain of 12 nested files, a tab after the parameter, cycles inside parentheses; parameters with '..', '.', an absolute path, a backslash or nothing are refused at the INCLUDE although the file they name exists; missing file; directory; cycles; one file several times; names relative to the including file; in-memory roots named \"\", api.jst, ./api.jst). Cycles through the ROOT file are rejected with the JSIGHT-in-included-file error instead of the recursion error: open known finding D29, an obligation of its own"
 tree["C07"] = "errors of three kinds in a file behind three nested INCLUDEs, and an error about a directive of the including file that surfaces while the included file is scanned (D30, found by a seeding agent, repaired): file, line and the trace innermost first"
 tree["C06"] = "two fresh processes build about 1000 corpus documents to the same catalog bytes / error texts (digest comparison)"
 for k, v in tree.items():
     claims[k]["text"] += " BOUNDED as well (reported under bounded_checks_not_counted_as_proved): " + v + "."
 for k, v in corpus.items():
-    claims[k]["text"] += (" Every run also executes a BOUNDED corpus oracle on the real code (built-in documents plus about 1100 documents of /repo/testdata, go test -overlay, "
+    claims[k]["text"] += (" Every run also executes a BOUNDED corpus oracle on the real code (built-in documents, 400 generated documents and about 1100 documents of /repo/testdata, go test -overlay, "
                           "reported under bounded_checks_not_counted_as_proved and never counted as proved): " + v + ".")
 
 not_applicable = {
